@@ -1,6 +1,7 @@
 package main
 
 import (
+	"go/token"
 	"fmt"
 	"strings"
 
@@ -28,6 +29,12 @@ var contracts = map[string]rangeContract{
 // atomOverParams translates a callee polynomial whose atoms mention only parameters into the
 // caller's terms, substituting the actual arguments.
 func translatePoly(cal *Prover, p Poly, callee *ssa.Function, caller *Prover, args []ssa.Value) (Poly, bool) {
+	return translatePolyX(cal, p, callee, caller, args, nil)
+}
+
+// translatePolyX also maps a value the callee (a closure) reads from a captured variable to the value
+// that variable holds in the caller: free(fv) is that value, or nil.
+func translatePolyX(cal *Prover, p Poly, callee *ssa.Function, caller *Prover, args []ssa.Value, free func(fv *ssa.FreeVar) ssa.Value) (Poly, bool) {
 	out := Poly{}
 	ok := true
 	idx := func(v ssa.Value) int {
@@ -40,15 +47,32 @@ func translatePoly(cal *Prover, p Poly, callee *ssa.Function, caller *Prover, ar
 	}
 	var trAtom func(a *Atom) (Poly, bool)
 	var trPoly func(q Poly) (Poly, bool)
+	captured := func(v ssa.Value) ssa.Value {
+		if free == nil {
+			return nil
+		}
+		if ld, ok := v.(*ssa.UnOp); ok && ld.Op == token.MUL {
+			if fv, ok := ld.X.(*ssa.FreeVar); ok {
+				return free(fv)
+			}
+		}
+		return nil
+	}
 	trAtom = func(a *Atom) (Poly, bool) {
 		switch a.kind {
 		case aVal:
 			if i := idx(a.val); i >= 0 {
 				return caller.poly(args[i]), true
 			}
+			if cv := captured(a.val); cv != nil {
+				return caller.poly(cv), true
+			}
 		case aLen:
 			if i := idx(a.val); i >= 0 {
 				return caller.lenOf(args[i]), true
+			}
+			if cv := captured(a.val); cv != nil {
+				return caller.lenOf(cv), true
 			}
 		case aNil:
 			if i := idx(a.val); i >= 0 {
